@@ -500,3 +500,8 @@ def post_C07(drv, res, binary, tier, seed):
 
 
 NOT_CLAIMED = {}
+# wave 9
+_more("C04", "One of the two disclosure arguments absent (None) while the other one is not empty - forged messages without indexes, "
+      "indexes without messages, the true lists one at a time, None / None for a proof that discloses something - must be refused.")
+_more("C14", "Every hidden set of two or more positions is also listed descending and rotated by one (the listing order of the "
+      "hidden indexes is the caller's choice); the whole issuance must still succeed.", hidden_set_listed_out_of_order=4)
